@@ -85,18 +85,18 @@ structure OT (E : Env U π) (rank : UNT U → Nat) (s : St U π) (emE : List (π
   oc : OC E rank s emE
   cache : CacheC s
 
-theorem pushNext_total (R : RHyp E rank Good) {L Al A : Nat} (T : THyp E L Al A) {fuel : Nat} {s : St U π}
-    {emE : List (π × Prog × UNT U)} {nt : UNT U} {p : Option Prog} {w : Rat} (h : OG E rank s emE) (hc : CacheC s)
+theorem pushNext_total (R : RHyp E rank Good) (hnf : ∀ p, E.filter p = true) {L Al A : Nat} (T : THyp E L Al A) {fuel : Nat}
+    {s : St U π} {emE : List (π × Prog × UNT U)} {nt : UNT U} {p : Option Prog} {w : Rat} (h : OG E rank s emE) (hc : CacheC s)
     (hw : startW E nt = some w) (hfuel : (rank nt + 1) * (L + Al + A + 6) ≤ fuel) (hpp : ∀ k, p = some k → Popped s nt k) :
     ∃ s', pushNext E fuel s nt p = some s' ∧ CacheC s' := by
   have H := R.ohyp
   have hk := H.ghyp.kway
   have hopre : OPre E rank (.query nt p) s := by
-    refine ⟨h.all.below _, ?_, hpp⟩
+    refine ⟨h.all.below _, ?_, hpp, fun _ => h.base.nodel hnf⟩
     rcases h.all nt with hu | hf
     · exact Or.inl hu
     · exact Or.inr ⟨hf.1, hf.2.2⟩
-  obtain ⟨⟨s1, r⟩, hq⟩ := (low_all H T (rank nt + 1)).query nt (Nat.lt_succ_self _) (T.starts_closed nt w hw) fuel s p hfuel
+  obtain ⟨⟨s1, r⟩, hq⟩ := (low_all H hnf T (rank nt + 1)).query nt (Nat.lt_succ_self _) (T.starts_closed nt w hw) fuel s p hfuel
     h.base hc hopre
   have hb := big_of_query E hq
   have hc1 := (big_cacheC E hk hb hc).1
@@ -125,18 +125,18 @@ theorem pushNext_total (R : RHyp E rank Good) {L Al A : Nat} (T : THyp E L Al A)
     have hcs := computePrio_step E hcp
     exact hc1.congr (fun nt' => by show s2.seenOf nt' = _; rw [hcs.seenOf]) hg
 
-theorem pushNexts_total (R : RHyp E rank Good) {L Al A : Nat} (T : THyp E L Al A) {fuel : Nat} :
+theorem pushNexts_total (R : RHyp E rank Good) (hnf : ∀ p, E.filter p = true) {L Al A : Nat} (T : THyp E L Al A) {fuel : Nat} :
     ∀ (l : List (UNT U)) (s : St U π), OG E rank s [] → CacheC s → l.Nodup → (∀ nt, nt ∈ s.startHeap.map (·.2.2) → nt ∉ l) →
       (∀ nt, nt ∈ l → ∃ w, startW E nt = some w) → (∀ nt, nt ∈ l → (rank nt + 1) * (L + Al + A + 6) ≤ fuel) →
       ∃ s', pushNexts E fuel l s = some s' ∧ CacheC s'
   | [], s, _, hc, _, _, _, _ => ⟨s, rfl, hc⟩
   | nt :: rest, s, h, hc, hnd, hdisj, hst, hfuel => by
     obtain ⟨w, hw⟩ := hst nt List.mem_cons_self
-    obtain ⟨s1, h1, hc1⟩ := pushNext_total R T (p := none) h hc hw (hfuel nt List.mem_cons_self) (by intro k hk; cases hk)
-    obtain ⟨g1, hsub, _, _, _⟩ := h.pushNext R (fun hm => hdisj nt hm List.mem_cons_self) (by simp [doneR])
+    obtain ⟨s1, h1, hc1⟩ := pushNext_total R hnf T (p := none) h hc hw (hfuel nt List.mem_cons_self) (by intro k hk; cases hk)
+    obtain ⟨g1, hsub, _, _, _, _⟩ := h.pushNext R (fun hm => hdisj nt hm List.mem_cons_self) (by simp [doneR])
       (by intro k hk; cases hk) (fun _ => rfl) (E.ops.ofRule 0) (by intro x hx; cases hx)
       (by intro k w pr hk; cases hk) h1
-    obtain ⟨s', hs', hc'⟩ := pushNexts_total R T rest s1 g1 hc1 (List.nodup_cons.mp hnd).2 (by
+    obtain ⟨s', hs', hc'⟩ := pushNexts_total R hnf T rest s1 g1 hc1 (List.nodup_cons.mp hnd).2 (by
         intro nt' hm
         obtain ⟨e, he, rfl⟩ := List.mem_map.mp hm
         rcases hsub e he with ho | ⟨hn, _⟩
@@ -150,7 +150,7 @@ theorem pushNexts_total (R : RHyp E rank Good) {L Al A : Nat} (T : THyp E L Al A
 def FuelOK (E : Env U π) (rank : UNT U → Nat) (C fuel : Nat) : Prop :=
   1 ≤ fuel ∧ ∀ nt w, startW E nt = some w → (rank nt + 1) * C ≤ fuel
 
-theorem kwayLoop_total (R : RHyp E rank Good) {L Al A : Nat} (T : THyp E L Al A) {fuel : Nat}
+theorem kwayLoop_total (R : RHyp E rank Good) (hnf : ∀ p, E.filter p = true) {L Al A : Nat} (T : THyp E L Al A) {fuel : Nat}
     (hf : FuelOK E rank (L + Al + A + 6) fuel) (k : Nat) {s : St U π} {emE : List (π × Prog × UNT U)}
     (hc : OC E rank s emE) (hcc : CacheC s) : ∃ res, kwayLoop E fuel (k + 1) s = some res ∧ CacheC res.1 := by
   have H := R.ohyp
@@ -161,26 +161,12 @@ theorem kwayLoop_total (R : RHyp E rank Good) {L Al A : Nat} (T : THyp E L Al A)
   | some eh =>
     obtain ⟨⟨pa, q, nt⟩, h'⟩ := eh
     simp only
-    obtain ⟨hm, hsub⟩ := mem_of_pop _ _ _ _ hpop
-    obtain ⟨hsh', hmin⟩ := Heapq.pop_isHeap_on (ltS_weakOrderOn H) _ _ _ (start_good R h.base.sinv) h.sheap hpop
-    obtain ⟨g0, hnt0, hpq⟩ := h.ginv.popStart R.disj hpop
-    have h0 : OG E rank { s with startHeap := h' } ((pa, q, nt) :: emE) := by
-      refine ⟨⟨g0.sinv, g0.ninv, h.base.hinv, h.base.nodel⟩, g0, ?_, ?_, ?_, hsh', ?_⟩
-      · exact h.all.same (fun _ => ⟨rfl, rfl, rfl, rfl, rfl, fun _ => rfl, fun _ _ => rfl⟩) (Stable.refl _)
-      · intro e' he' x hx
-        rcases List.mem_cons.mp hx with rfl | hx
-        · exact hmin e' (hsub e' he')
-        · exact h.heap_ge e' (hsub e' he') x hx
-      · exact List.pairwise_cons.mpr ⟨fun x hx => h.heap_ge _ hm x hx, h.sorted⟩
-      · intro x hx
-        rcases List.mem_cons.mp hx with rfl | hx
-        · exact h.base.sinv.start_ok _ hm
-        · exact h.em_key x hx
+    obtain ⟨h0, hnt0, hpq, hm, hqdel⟩ := h.popStart R hpop
     obtain ⟨w, pr, hw, hpr, hpa⟩ := h.base.sinv.start_ok _ hm
     simp only at hw hpr hpa
     have hcc0 : CacheC { s with startHeap := h' } := hcc.congr (fun _ => rfl) (CacheGrow.refl _)
-    obtain ⟨s1, hpn, hc1⟩ := pushNext_total R T (p := some q) h0 hcc0 hw (hf.2 nt w hw) (by intro k hk; cases hk; exact hpq)
-    obtain ⟨g1, _, _, _, _⟩ := h0.pushNext R hnt0 (by simp [doneR_cons_self])
+    obtain ⟨s1, hpn, hc1⟩ := pushNext_total R hnf T (p := some q) h0 hcc0 hw (hf.2 nt w hw) (by intro k hk; cases hk; exact hpq)
+    obtain ⟨g1, _, _, _, _, _⟩ := h0.pushNext R hnt0 (by simp [doneR_cons_self])
       (by intro k hk; cases hk; exact hpq) (by intro hk; cases hk) pa
       (by
         intro x hx
@@ -194,11 +180,11 @@ theorem kwayLoop_total (R : RHyp E rank Good) {L Al A : Nat} (T : THyp E L Al A)
         cases hw'
         rw [hasPrio_fun H _ _ _ _ hpr' hpr]
         exact hpa) hpn
-    have hnd : s1.deleted.contains q = false := by rw [g1.base.nodel]; rfl
+    have hnd : s1.deleted.contains q = false := by rw [g1.base.nodel hnf]; rfl
     simp only [hpn, hnd, Bool.false_eq_true, if_false]
     exact ⟨_, rfl, hc1⟩
 
-theorem startQuery_total (R : RHyp E rank Good) {L Al A : Nat} (T : THyp E L Al A) {fuel : Nat}
+theorem startQuery_total (R : RHyp E rank Good) (hnf : ∀ p, E.filter p = true) {L Al A : Nat} (T : THyp E L Al A) {fuel : Nat}
     (hf : FuelOK E rank (L + Al + A + 6) fuel) {s : St U π} {emE : List (π × Prog × UNT U)}
     (hc : OC E rank s emE) (hcc : CacheC s) : ∃ res, startQuery E fuel s = some res ∧ CacheC res.1 := by
   unfold UHS.startQuery
@@ -210,7 +196,7 @@ theorem startQuery_total (R : RHyp E rank Good) {L Al A : Nat} (T : THyp E L Al 
     obtain ⟨hs0, he0⟩ := hc.og.ginv.inited hi0'
     have he0' : emE = [] := by simpa using he0
     subst he0'
-    obtain ⟨s1, h1, hc1⟩ := pushNexts_total R T (E.G.starts.map (·.1)) s hc.og hcc R.starts_nodup
+    obtain ⟨s1, h1, hc1⟩ := pushNexts_total R hnf T (E.G.starts.map (·.1)) s hc.og hcc R.starts_nodup
       (by rw [hs0]; intro nt hm; cases hm) (fun nt hn => (startW_some_iff E nt).mpr hn)
       (fun nt hn => by obtain ⟨w, hw⟩ := (startW_some_iff E nt).mpr hn; exact hf.2 nt w hw)
     simp only [h1]
@@ -218,37 +204,38 @@ theorem startQuery_total (R : RHyp E rank Good) {L Al A : Nat} (T : THyp E L Al 
       (by intro nt hn hs _; exact absurd hs hn) h1
     have hoc1 : OC E rank s1 [] := ⟨g1, fun _ nt w hw hn => hex1 nt ((startW_some_iff E nt).mp ⟨w, hw⟩) hn⟩
     rw [hf']
-    exact kwayLoop_total R T (hf' ▸ hf) f' hoc1 hc1
+    exact kwayLoop_total R hnf T (hf' ▸ hf) f' hoc1 hc1
   · simp only [hi0, Bool.false_eq_true, if_false]
     rw [hf']
-    exact kwayLoop_total R T (hf' ▸ hf) f' hc hcc
+    exact kwayLoop_total R hnf T (hf' ▸ hf) f' hc hcc
 
-theorem next_total (R : RHyp E rank Good) {L Al A : Nat} (T : THyp E L Al A) {fuel : Nat}
+theorem next_total (R : RHyp E rank Good) (hnf : ∀ p, E.filter p = true) {L Al A : Nat} (T : THyp E L Al A) {fuel : Nat}
     (hf : FuelOK E rank (L + Al + A + 6) fuel) (k : Nat) {s : St U π} {emE : List (π × Prog × UNT U)}
     (hc : OC E rank s emE) (hcc : CacheC s) : ∃ res, next E fuel (k + 1) s = some res ∧ CacheC res.1 := by
-  obtain ⟨⟨s1, r⟩, hq, hc1⟩ := startQuery_total R T hf hc hcc
+  obtain ⟨⟨s1, r⟩, hq, hc1⟩ := startQuery_total R hnf T hf hc hcc
   simp only [UHS.next, hq]
   cases r with
   | none => exact ⟨_, rfl, hc1⟩
   | some p =>
-    simp only [R.nofilter p, if_true]
+    simp only [hnf p, if_true]
     exact ⟨_, rfl, hc1⟩
 
-theorem take_total (R : RHyp E rank Good) {L Al A : Nat} (T : THyp E L Al A) {fuel : Nat}
+theorem take_total (R : RHyp E rank Good) (hnf : ∀ p, E.filter p = true) {L Al A : Nat} (T : THyp E L Al A) {fuel : Nat}
     (hf : FuelOK E rank (L + Al + A + 6) fuel) : ∀ (k : Nat) {s : St U π} {emE : List (π × Prog × UNT U)} (acc : List Prog),
     OC E rank s emE → CacheC s → ∃ s' out b, take E fuel k s acc = some (s', out, b) ∧ (b = false → out.length = acc.length + k)
   | 0, s, _, acc, _, _ => ⟨s, acc, false, rfl, fun _ => rfl⟩
   | k + 1, s, emE, acc, hc, hcc => by
     obtain ⟨f', hf'⟩ : ∃ f', fuel = f' + 1 := ⟨fuel - 1, by have := hf.1; omega⟩
-    obtain ⟨⟨s1, r⟩, hn, hc1⟩ := next_total R T hf f' hc hcc
+    obtain ⟨⟨s1, r⟩, hn, hc1⟩ := next_total R hnf T hf f' hc hcc
     rw [← hf'] at hn
     cases r with
     | none =>
       refine ⟨s1, acc, true, by simp only [UHS.take, hn], by intro hb; cases hb⟩
     | some p =>
-      rcases hc.next R fuel hn with ⟨he, _⟩ | ⟨e, _, g⟩
+      obtain ⟨new, _, hres⟩ := hc.next R fuel hn
+      rcases hres with ⟨he, _⟩ | ⟨e, _, _, g⟩
       · cases he
-      · obtain ⟨s', out, b, ht, hlen⟩ := take_total R T hf k (acc ++ [p]) g hc1
+      · obtain ⟨s', out, b, ht, hlen⟩ := take_total R hnf T hf k (acc ++ [p]) g hc1
         refine ⟨s', out, b, by simp only [UHS.take, hn]; exact ht, ?_⟩
         intro hb
         rw [hlen hb]
@@ -257,7 +244,7 @@ theorem take_total (R : RHyp E rank Good) {L Al A : Nat} (T : THyp E L Al A) {fu
 
 /-- **the generator stops**: with enough fuel there is a number of `next` steps after which the generator
     has raised `StopIteration` -/
-theorem take_stops (R : RHyp E rank Good) {L Al A : Nat} (T : THyp E L Al A) {fuel : Nat}
+theorem take_stops (R : RHyp E rank Good) (hnf : ∀ p, E.filter p = true) {L Al A : Nat} (T : THyp E L Al A) {fuel : Nat}
     (hf : FuelOK E rank (L + Al + A + 6) fuel) : ∃ k s' out, take E fuel k (St.empty E.G) [] = some (s', out, true) := by
   let Lg : List Prog := E.G.starts.flatMap (fun st => langL E (rank st.1 + 1) st.1)
   have hce : CacheC (St.empty E.G : St U π) := by
@@ -266,7 +253,7 @@ theorem take_stops (R : RHyp E rank Good) {L Al A : Nat} (T : THyp E L Al A) {fu
     · rw [hu.2.2.2] at hp; cases hp
     · have := hf'.1.init
       simp [St.empty] at this
-  obtain ⟨s', out, b, ht, hlen⟩ := take_total R T hf (Lg.length + 1) [] (oc_empty E) hce
+  obtain ⟨s', out, b, ht, hlen⟩ := take_total R hnf T hf (Lg.length + 1) [] (oc_empty E) hce
   cases b with
   | true => exact ⟨_, s', out, ht⟩
   | false =>
